@@ -129,6 +129,10 @@ MUTANTS: list[M] = [
     M("close-tag-not-atomic", ("C06",), AP, "    HTML_OPEN_TAG,\n    HTML_CLOSE_TAG,\n)", "    HTML_OPEN_TAG,\n)", "R-ATOMIC"),
     M("closing-fix-removed", ("C06",), TH, "        result = _fix_closing_tag_spacing(result)\n", "", "R-ATOMIC-post"),
     M("restore-skipped", ("C06", "C12", "C04"), TW, "        return _restore_atomic_constructs(tokens, construct_map)", "        return tokens if len(construct_map) > 50 else _restore_atomic_constructs(tokens, construct_map)", "R-LOSSLESS-L5"),
+    M("token-appended-before-restore", ("C06", "C12", "C04"), TW, "    for token in tokens:\n        for idx, construct in construct_map.items():",
+      "    for token in tokens:\n        if len(token) > 40:\n            result.append(token)\n            continue\n        for idx, construct in construct_map.items():", "R-LOSSLESS-L5"),
+    M("tokens-returned-unrestored", ("C06",), TW, "    result: list[str] = []\n    for token in tokens:\n        for idx", "    if len(tokens) > 99:\n        return tokens\n    result: list[str] = []\n    for token in tokens:\n        for idx", "R-LOSSLESS-L5"),
+    M("map-not-the-extracted-one", ("C06",), TW, "        return _restore_atomic_constructs(tokens, construct_map)", "        return _restore_atomic_constructs(tokens, dict(list(construct_map.items())[:64]))", "R-LOSSLESS-L5"),
     M("denormalize-skipped", ("C06",), TW, "    return denormalize_adjacent_tags(result)", "    return result", "R-LOSSLESS-L6"),
     M("merge-without-short-test", ("C11",), LW, "                and length(lines[-1]) < min_line_len\n                and length(lines[-1]) + 1", "                and length(lines[-1]) + 1", "R-SENT"),
     M("reads-older-line", ("C11",), LW, "            if len(lines) > 0 and length(lines[-1]) < min_line_len:\n                current_column += length(lines[-1])", "            if len(lines) > 1 and length(lines[-2]) < min_line_len:\n                current_column += length(lines[-2])", "R-SENT"),
